@@ -277,6 +277,35 @@ mod verif_bounded_dbm {
         if dbm.load_trackers_with_confirmation_status(ConfirmationStatus::IrrevocablyResolved).is_ok() {
             return Err("load_trackers_with_confirmation_status(IrrevocablyResolved) is Ok".to_owned());
         }
+        // load_appointments / load_trackers (all, and per locator)
+        for q in [None, Some(0usize), Some(1usize)] {
+            let got: BTreeSet<usize> = dbm.load_appointments(q.map(|l| w.locators[l])).keys().map(|u| w.uuids.iter().position(|x| x == u).unwrap()).collect();
+            let want: BTreeSet<usize> = m.appts.keys().filter(|a| !m.trackers.contains_key(a) && q.map_or(true, |l| LOC[**a] == l)).cloned().collect();
+            if got != want {
+                return Err(format!("load_appointments({:?}) = {:?} expected {:?}", q, got, want));
+            }
+            for (u, a) in dbm.load_appointments(q.map(|l| w.locators[l])) {
+                let i = w.uuids.iter().position(|x| *x == u).unwrap();
+                let e = &w.versions[i][m.appts[&i]];
+                if a.inner.encrypted_blob != e.inner.encrypted_blob || a.user_id != e.user_id || a.inner.to_self_delay != e.inner.to_self_delay {
+                    return Err(format!("load_appointments({:?}): appointment {i} reads back altered", q));
+                }
+            }
+            let lt = dbm.load_trackers(q.map(|l| w.locators[l]));
+            let got: BTreeSet<usize> = lt.keys().map(|u| w.uuids.iter().position(|x| x == u).unwrap()).collect();
+            let want: BTreeSet<usize> = m.trackers.keys().filter(|a| q.map_or(true, |l| LOC[**a] == l)).cloned().collect();
+            if got != want {
+                return Err(format!("load_trackers({:?}) = {:?} expected {:?}", q, got, want));
+            }
+            for (u, t) in lt {
+                let i = w.uuids.iter().position(|x| *x == u).unwrap();
+                let (h, c) = m.trackers[&i];
+                let st = if c { ConfirmationStatus::ConfirmedIn(h) } else { ConfirmationStatus::InMempoolSince(h) };
+                if t.status != st || t.user_id != w.users[OWNER[i]] || t.dispute_tx != w.txs[i].0 || t.penalty_tx != w.txs[i].1 {
+                    return Err(format!("load_trackers({:?}): tracker {i} reads back altered", q));
+                }
+            }
+        }
         let ps = dbm.load_penalties_summaries();
         let got: BTreeSet<usize> = ps.keys().map(|u| w.uuids.iter().position(|x| x == u).unwrap()).collect();
         let want: BTreeSet<usize> = m.trackers.keys().cloned().collect();
